@@ -11,7 +11,80 @@ import (
 type flavour struct {
 	name   string
 	access []string // access kinds of the clients
-	event  string   // "" | release | decline | expiry : histories are built around this event
+	// "" | release | decline | expiry | swap | move | reshape | retire | release-offered : histories are built
+	// around this event (swap / move / reshape also make client 0 appear a second time: new MAC on the same
+	// circuit / same MAC on another circuit / same MAC with another access shape)
+	event string
+}
+
+var identityEvents = map[string]bool{"swap": true, "move": true, "reshape": true}
+
+func hasCidAccess(a string) bool { return a == "relay82" || a == "l2opt82" }
+
+func genCid(t *rapid.T, label string, idx int) hexb {
+	n := pick(t, label+"len", 1, 4, 8, 15, 16, 31, 32)
+	raw := rapid.SliceOfN(rapid.ByteRange(1, 255), n, n).Draw(t, label)
+	raw[0] = byte(0x30 + idx) // distinct per entry
+	return raw
+}
+
+func genMAC(t *rapid.T, label string, idx int) hexb {
+	r := rapid.SliceOfN(rapid.Byte(), 4, 4).Draw(t, label+"r")
+	if pick(t, label+"oui", 0, 0, 1) == 1 {
+		return hexb{0x00, 0x1a, 0x2b, r[1], r[2], byte(idx + 1)}
+	}
+	return hexb{0x02 | r[0]&0xfc, byte(0x10 + idx), r[1], r[2], r[3], byte(idx + 1)}
+}
+
+func genTags(t *rapid.T, label string, cl *clientCfg, idx int) {
+	switch cl.Access {
+	case "vlan":
+		cl.STag = uint16(100 + 10*idx + rapid.IntRange(0, 9).Draw(t, label+"vid"))
+	case "qinq":
+		cl.STag = uint16(pick(t, label+"stag", 1, 200, 2000, 2999)) + uint16(idx)
+		cl.CTag = uint16(pick(t, label+"ctag", 1, 10, 1000, 2995)) + uint16(idx)
+	}
+}
+
+// genPersona derives another appearance of client `of` (see clientCfg.Rel).  "" = not applicable.
+func genPersona(t *rapid.T, label string, base clientCfg, of, idx int, rel string) (clientCfg, bool) {
+	p := clientCfg{MAC: base.MAC, Access: base.Access, STag: base.STag, CTag: base.CTag, Cid: base.Cid, RemoteID: base.RemoteID, Rel: rel, Of: of}
+	switch rel {
+	case "cpe-swap":
+		if !hasCidAccess(base.Access) {
+			return p, false
+		}
+		p.MAC = genMAC(t, label+"mac", idx)
+	case "circuit-move":
+		if !hasCidAccess(base.Access) {
+			return p, false
+		}
+		p.Cid = genCid(t, label+"cid", idx)
+	case "reshape":
+		var to []string
+		switch base.Access {
+		case "direct":
+			to = []string{"relay82", "relay82", "l2opt82", "relay", "vlan", "qinq"}
+		case "relay":
+			to = []string{"relay82", "relay82", "direct"}
+		case "relay82":
+			to = []string{"direct", "relay", "l2opt82", "direct"}
+		case "l2opt82":
+			to = []string{"direct", "relay82", "relay"}
+		default: // vlan, qinq
+			to = []string{"direct", "relay82", "qinq"}
+		}
+		p.Access = pick(t, label+"to", to...)
+		p.STag, p.CTag = 0, 0
+		genTags(t, label, &p, idx)
+		switch {
+		case !hasCidAccess(p.Access):
+			p.Cid, p.RemoteID = nil, nil
+		case !hasCidAccess(base.Access):
+			p.Cid = genCid(t, label+"cid", idx)
+		}
+	}
+	return p, true
 }
 
 func pick[T any](t *rapid.T, label string, xs ...T) T {
@@ -48,28 +121,33 @@ func genCfg(t *rapid.T, fl flavour) caseCfg {
 	c.PoolID = pick[uint32](t, "poolid", 1, 1, 0, 7, 9999)
 	k := pick(t, "k", 1, 2, 2, 3)
 	for i := 0; i < k; i++ {
-		cl := clientCfg{Access: pick(t, fmt.Sprintf("access%d", i), fl.access...)}
-		r := rapid.SliceOfN(rapid.Byte(), 4, 4).Draw(t, fmt.Sprintf("macr%d", i))
-		cl.MAC = hexb{0x02 | r[0]&0xfc, byte(0x10 + i), r[1], r[2], r[3], byte(i + 1)}
-		if pick(t, fmt.Sprintf("macoui%d", i), 0, 0, 1) == 1 {
-			cl.MAC = hexb{0x00, 0x1a, 0x2b, r[1], r[2], byte(i + 1)}
-		}
-		switch cl.Access {
-		case "vlan":
-			cl.STag = uint16(100 + 10*i + rapid.IntRange(0, 9).Draw(t, fmt.Sprintf("vid%d", i)))
-		case "qinq":
-			cl.STag = uint16(pick(t, fmt.Sprintf("stag%d", i), 1, 200, 2000, 2999)) + uint16(i)
-			cl.CTag = uint16(pick(t, fmt.Sprintf("ctag%d", i), 1, 10, 1000, 2995)) + uint16(i)
-		case "relay82", "l2opt82":
-			n := pick(t, fmt.Sprintf("cidlen%d", i), 1, 4, 8, 15, 16, 31, 32)
-			raw := rapid.SliceOfN(rapid.ByteRange(1, 255), n, n).Draw(t, fmt.Sprintf("cid%d", i))
-			raw[0] = byte(0x30 + i) // distinct per client
-			cl.Cid = raw
-			if chance(t, fmt.Sprintf("rid%d", i), 1, 3) {
+		l := fmt.Sprintf("cl%d.", i)
+		cl := clientCfg{Access: pick(t, l+"access", fl.access...)}
+		cl.MAC = genMAC(t, l+"mac", i)
+		genTags(t, l, &cl, i)
+		if hasCidAccess(cl.Access) {
+			cl.Cid = genCid(t, l+"cid", i)
+			if chance(t, l+"rid", 1, 3) {
 				cl.RemoteID = hexb(fmt.Sprintf("bng-r%d", i))
 			}
 		}
 		c.Clients = append(c.Clients, cl)
+	}
+	// further appearances of the same clients: replacement CPE, other circuit, other access shape
+	for i := 0; i < k && len(c.Clients) < 7; i++ {
+		for _, rel := range []string{"cpe-swap", "circuit-move", "reshape"} {
+			l := fmt.Sprintf("cl%d.%s.", i, rel)
+			want := chance(t, l+"want", 1, 3)
+			if i == 0 && identityEvents[fl.event] {
+				want = want || map[string]string{"swap": "cpe-swap", "move": "circuit-move", "reshape": "reshape"}[fl.event] == rel
+			}
+			if !want || len(c.Clients) >= 7 {
+				continue
+			}
+			if p, ok := genPersona(t, l, c.Clients[i], i, len(c.Clients), rel); ok {
+				c.Clients = append(c.Clients, p)
+			}
+		}
 	}
 	return c
 }
